@@ -233,25 +233,45 @@ func runC06(w *World, r *Report, tier string) {
 			okNI := len(niCalls) == 1
 			if okNI {
 				ni := niCalls[0].(ssa.Instruction)
-				iqEdges := edgesAsserting(route, func(c ssa.Value, truth bool) bool {
-					T, ok := typeAssertOK(c, pIQ)
-					return ok && truth && w.typeStr(T) == "*stanza.IQ"
-				})
-				reqEdges := edgesAsserting(route, func(c ssa.Value, truth bool) bool {
-					bo, ok := c.(*ssa.BinOp)
-					if !ok || bo.Op != token.EQL || !truth {
-						return false
-					}
-					s, isS := stringConst(bo.Y)
-					return isS && (s == w.ConstString("stanza.IQTypeGet") || s == w.ConstString("stanza.IQTypeSet"))
-				})
-				unmatched := edgesAsserting(route, func(c ssa.Value, truth bool) bool { return c == ssa.Value(mc) && !truth })
+				// every feasible path from the entry to the call asserts all three conditions
 				tgt := func(in ssa.Instruction) bool { return in == ni }
-				okNI = len(iqEdges) > 0 && !reachable(entryLoc(route), tgt, nil, iqEdges) && len(reqEdges) == 2 && !reachable(entryLoc(route), tgt, nil, reqEdges) && len(unmatched) > 0 && !reachable(entryLoc(route), tgt, nil, unmatched)
+				reqS := map[string]bool{w.ConstString("stanza.IQTypeGet"): true, w.ConstString("stanza.IQTypeSet"): true}
+				nPaths := 0
+				seenReq := map[string]bool{}
+				err := walkPaths(entryLoc(route), tgt, nil, 100000, func(path []ssa.Instruction, end pathEnd) {
+					if !tgt(path[len(path)-1]) {
+						return
+					}
+					nPaths++
+					isIQ := pathAsserts(path, func(c ssa.Value, truth bool) bool {
+						T, ok := typeAssertOK(c, pIQ)
+						return ok && truth && w.typeStr(T) == "*stanza.IQ"
+					})
+					isReq := pathAsserts(path, func(c ssa.Value, truth bool) bool {
+						bo, ok := c.(*ssa.BinOp)
+						if !ok || bo.Op != token.EQL || !truth {
+							return false
+						}
+						s, isS := stringConst(bo.Y)
+						fp := fieldPath(bo.X)
+						if isS && reqS[s] && len(fp) > 0 && fp[len(fp)-1].Name() == "Type" {
+							seenReq[s] = true
+							return true
+						}
+						return false
+					})
+					unm := pathAsserts(path, func(c ssa.Value, truth bool) bool { return c == ssa.Value(mc) && !truth })
+					if !(isIQ && isReq && unm) {
+						okNI = false
+					}
+				})
+				if err != nil || nPaths == 0 || len(seenReq) != len(reqS) {
+					okNI = false // both request types (get and set) must lead to the reply
+				}
 				// argument is the asserted IQ and the routed sender
 				a := niCalls[0].Common().Args
-				T, _ := typeAssertSource(a[1], pIQ)
-				if a[0] != ssa.Value(route.Params[1]) || T == nil || w.typeStr(T) != "*stanza.IQ" {
+				T, _ := typeAssertSource(origin(a[1]), pIQ)
+				if origin(a[0]) != ssa.Value(route.Params[1]) || T == nil || w.typeStr(T) != "*stanza.IQ" {
 					okNI = false
 				}
 			}
@@ -409,9 +429,15 @@ func c06Matchers(w *World, r *Report) {
 			}
 		})
 	}
-	// matchInArray
-	mia := w.Func("xmpp.matchInArray")
-	{
+	// the membership function the matchers return through (matchInArray today): found at the return sites, judged by its body
+	memb := map[*ssa.Function]bool{}
+	membershipOK := func(mia *ssa.Function) bool {
+		if mia == nil || mia.Blocks == nil || len(mia.Params) != 2 || !w.inModule(mia) {
+			return false
+		}
+		if v, done := memb[mia]; done {
+			return v
+		}
 		eq := edgesAsserting(mia, func(c ssa.Value, truth bool) bool {
 			bo, ok := c.(*ssa.BinOp)
 			if !ok || bo.Op != token.EQL || !truth {
@@ -449,7 +475,9 @@ func c06Matchers(w *World, r *Report) {
 				okEq = false
 			}
 		}
-		r.Check(okEq, "R4", "xmpp.matchInArray", w.pos(mia.Pos()), "matchInArray does not return true exactly from an equality with an element of the list", "true iff some element equals the value")
+		memb[mia] = okEq
+		r.Check(okEq, "R4", w.funcKey(mia), w.pos(mia.Pos()), "the membership function the matchers rely on does not return true exactly from an equality with an element of the list", "true iff some element equals the value")
+		return okEq
 	}
 	// nameMatcher
 	nm := w.Func("xmpp.(nameMatcher).Match")
@@ -492,7 +520,7 @@ func c06Matchers(w *World, r *Report) {
 					bad = "the result is not the outcome of the name comparison"
 				}
 			}
-			x, y := valueOnPath(cmp.X, path), valueOnPath(cmp.Y, path)
+			x, y := valueOnPath(rvAny(cmp.X), path), valueOnPath(rvAny(cmp.Y), path)
 			isN := func(v ssa.Value) bool { return w.nf(v, 0) == "param:n" }
 			var nameV ssa.Value
 			if isN(y) {
@@ -540,8 +568,8 @@ func c06Matchers(w *World, r *Report) {
 				return
 			}
 			c, isCall := rt.Results[0].(*ssa.Call)
-			if !isCall || w.callKey(c) != "xmpp.matchInArray" || w.nf(c.Call.Args[0], 0) != "param:m" {
-				bad = "the result is not matchInArray(configured types, type of the stanza)"
+			if !isCall || len(c.Call.Args) != 2 || !membershipOK(c.Call.StaticCallee()) || w.nf(c.Call.Args[0], 0) != "param:m" {
+				bad = "the result is not membership of the stanza's type in the configured types"
 				return
 			}
 			v := valueOnPath(c.Call.Args[1], path)
@@ -569,7 +597,7 @@ func c06Matchers(w *World, r *Report) {
 			}
 			Ta, fp := typeAssertSource(v, tm.Params[1])
 			if Ta == nil || w.typeStr(Ta) != n || !strings.HasSuffix(fp, "Type") {
-				bad = "the type used is not the stanza's own Type attribute"
+				bad = "the type used is not the stanza's own Type attribute (" + w.nf(v, 0) + ")"
 			}
 			if n == "stanza.Message" && emptyType {
 				bad = "an untyped message is not treated as type \"normal\""
@@ -613,8 +641,8 @@ func c06Matchers(w *World, r *Report) {
 				return
 			}
 			c, isCall := rt.Results[0].(*ssa.Call)
-			if !isCall || w.callKey(c) != "xmpp.matchInArray" || w.nf(c.Call.Args[0], 0) != "param:m" {
-				bad = "the result is not matchInArray(configured namespaces, payload namespace)"
+			if !isCall || len(c.Call.Args) != 2 || !membershipOK(c.Call.StaticCallee()) || w.nf(c.Call.Args[0], 0) != "param:m" {
+				bad = "the result is not membership of the payload namespace in the configured namespaces"
 				return
 			}
 			nsCall, isNS := c.Call.Args[1].(*ssa.Call)
